@@ -7,6 +7,7 @@ From Coq Require Import List Arith Bool ZArith Ring_theory.
 Import ListNotations.
 Require Import Base.C01_Sums Model.C01_Assembly Proofs.C01_AssemblyProofs Model.C19_Blocks Proofs.C19_BlocksProofs.
 Require Import Model.C19_Composite Proofs.C19_CompositeProofs.
+Require Import Model.C19_CompBasis Proofs.C19_CompBasisProofs Proofs.C19_InverseProofs.
 Require Import Gen.C01Gen Dyn.C01Tie Gen.C19Gen Gen.C19Comp Dyn.C19Tie Dyn.C19Bmat Dyn.C19CompTie.
 
 (* ---------- ElementVector: local index i of the vector element <-> (scalar basis function ind, component n) ---------- *)
@@ -97,9 +98,11 @@ Section C19.
     gen_tolocal R rO data [n0; n1] = Some L -> gen_fromlocal R rO L (length data / (n0 * n1)) n0 n1 = data.
   Proof. exact (gen_fromlocal_tolocal R rO). Qed.
 
-  (* COOData.dot is the product with the assembled (duplicates summed) matrix *)
-  Theorem C19_coo_dot : forall (c : coo R) (x : list R) n A z,
-    c_shape c = [n; n] -> length x = n -> gen_to_dense2 R rO radd c = Some A -> gen_coo_dot R rO radd rmul c x [] = Some z ->
+  (* COOData.dot is the product with the assembled (duplicates summed) matrix, stated for rectangular data (nr, nc):
+     gen_dot_rows is the number of entries the source allocates for the result (len(x), which forces nr = nc, or shape[0]) *)
+  Theorem C19_coo_dot : forall (c : coo R) (x : list R) nr nc A z,
+    c_shape c = [nr; nc] -> length x = nc -> gen_dot_rows R c x = nr ->
+    gen_to_dense2 R rO radd c = Some A -> gen_coo_dot R rO radd rmul c x [] = Some z ->
     z = matvec R rO radd rmul A x.
   Proof. exact (gen_coo_dot_spec R rO rI radd rmul rsub ropp Rth). Qed.
 
@@ -182,6 +185,45 @@ Section C19.
       gen_to_dense2 R rO radd cab = Some Aab /\
       vAu R rO radd rmul vC AC uC (bN C) (bN C) = vAu R rO radd rmul va Aab ub (bN (b a)) (bN (b bt)).
   Proof. exact (gen_block_assembly R rO rI radd rmul rsub ropp Rth VV VC W vadd vscale vaddC vscaleC inj). Qed.
+
+  (* ---------- CompositeBasis (b_0 * b_1 * ...): assembly = block matrix (bmat) of the component assemblies with block
+     offsets N_0 + ... + N_{n-1}: for vectors supported on trial block bt and test block a,
+     v^T A u = va^T A^{a,bt} ub, A^{a,bt} assembled on (b_bt, b_a) from the form with the other slots zero ---------- *)
+  Theorem C19_compositebasis_blocks : forall (b0 : C01_Assembly.basis R VV) (rest : list (C01_Assembly.basis R VV))
+      (form : VC -> VC -> W -> R) (a bt : nat) (w : nat -> nat -> W) (uC vC ub va : nat -> R),
+    let bs := b0 :: rest in
+    (forall n, n < length bs -> wf_basis (nth n bs b0) /\ bnelems (nth n bs b0) = bnelems b0 /\ bnq (nth n bs b0) = bnq b0) ->
+    (forall x y v w, form (vaddC x y) v w = radd (form x v w) (form y v w)) ->
+    (forall s x v w, form (vscaleC s x) v w = rmul s (form x v w)) ->
+    (forall u x y w, form u (vaddC x y) w = radd (form u x w) (form u y w)) ->
+    (forall s u x w, form u (vscaleC s x) w = rmul s (form u x w)) ->
+    (forall n x y, inj n (vadd x y) = vaddC (inj n x) (inj n y)) ->
+    (forall n s x, inj n (vscale s x) = vscaleC s (inj n x)) ->
+    a < length bs -> bt < length bs ->
+    (forall e q, e < bnelems b0 -> q < bnq b0 -> bdx (nth bt bs b0) e q = bdx b0 e q) ->
+    cb_supported R rO VV b0 rest uC bt ub -> cb_supported R rO VV b0 rest vC a va ->
+    exists C cC AC cab Aab,
+      gen_composite_basis R VV VC inj b0 rest false = Some C /\
+      bN C = psum (fun n => bN (nth n bs b0)) (length bs) /\
+      gen_bilinear_assemble R rO radd rmul VC W form w C None = Some cC /\ gen_to_dense2 R rO radd cC = Some AC /\
+      gen_bilinear_assemble R rO radd rmul VV W (fun x y w => form (inj bt x) (inj a y) w) w (nth bt bs b0) (Some (nth a bs b0)) = Some cab /\
+      gen_to_dense2 R rO radd cab = Some Aab /\
+      vAu R rO radd rmul vC AC uC (bN C) (bN C) = vAu R rO radd rmul va Aab ub (bN (nth a bs b0)) (bN (nth bt bs b0)).
+  Proof. exact (gen_compositebasis_block_assembly R rO rI radd rmul rsub ropp Rth VV VC W vadd vscale vaddC vscaleC inj). Qed.
+
+  (* the constructor rejects a basis with another number of cells or quadrature points (N19) *)
+  Theorem C19_compositebasis_rejects : forall (b0 b1 : C01_Assembly.basis R VV) (rest : list (C01_Assembly.basis R VV)) eq,
+    bnelems b1 <> bnelems b0 \/ bnq b1 <> bnq b0 -> gen_composite_basis R VV VC inj b0 (b1 :: rest) eq = None.
+  Proof. exact (gen_composite_basis_rejects R VV VC inj). Qed.
+
+  (* COOData.inverse = fromlocal (inv (tolocal ())): for ANY per-cell operation inv that keeps the local shape the local
+     matrices of inverse(c) are inv of the local matrices of c, cell by cell (hence M * inv M = I blockwise whenever inv
+     is a matrix inverse; numpy.linalg.inv itself is runtime) *)
+  Theorem C19_inverse_spec : forall (inv : list (list R) -> list (list R)) (data : list R) n0 n1 L,
+    0 < n0 * n1 -> gen_tolocal R rO data [n0; n1] = Some L ->
+    (forall M, In M L -> length (inv M) = n0 /\ forall i, i < n0 -> length (nth i (inv M) []) = n1) ->
+    exists d', gen_inverse_with R rO inv data [n0; n1] = Some d' /\ gen_tolocal R rO d' [n0; n1] = Some (map inv L).
+  Proof. exact (gen_inverse_spec R rO). Qed.
 End C19.
 
 Print Assumptions C19_vector_decode.
@@ -200,6 +242,9 @@ Print Assumptions C19_interp_split_composite.
 Print Assumptions C19_interp_split_vector.
 Print Assumptions C19_interp_whole_is_sum.
 Print Assumptions C19_block_assembly.
+Print Assumptions C19_compositebasis_blocks.
+Print Assumptions C19_compositebasis_rejects.
+Print Assumptions C19_inverse_spec.
 
 (* ---------- non-vacuity: a rectangular (Nu = 2, Nv = 3), 2-cell, non-symmetric instance over Z ---------- *)
 Definition exV := (Z * Z)%type.
